@@ -296,8 +296,10 @@ type repRun struct {
 	shape     []string
 	step      int
 	router    http.Handler
-	exited    bool // the replica process called exit
-	punchEver bool // reclamation has been enabled at some point of this run
+	victim    bool   // crashsim victim mode: run the pre-history, then victimOp
+	victimOp  func() // never returns
+	exited    bool   // the replica process called exit
+	punchEver bool   // reclamation has been enabled at some point of this run
 	// bookkeeping for non-triviality
 	mutations, compares int
 }
@@ -421,6 +423,13 @@ func (rr *repRun) run() {
 			break
 		}
 		rr.step = i
+		if rr.victim && op.K == "rm" {
+			// pre-history removals pick a removable middle snapshot
+			if c := rr.m.chain(); len(c) >= 3 {
+				rr.removeSnapshot(c[1+int(op.A)%(len(c)-2)], "rm")
+			}
+			continue
+		}
 		rr.exec(i, op)
 		if os.Getenv("VERIF_DEBUG") != "" {
 			rr.w.Wait()
@@ -429,7 +438,13 @@ func (rr *repRun) run() {
 		if rr.stopped() {
 			break
 		}
-		rr.afterStep(op)
+		if !rr.victim {
+			rr.afterStep(op)
+		}
+	}
+	if rr.victim {
+		rr.victimOp()
+		return
 	}
 	if !rr.stopped() {
 		rr.step = len(s.Ops)
